@@ -7,13 +7,19 @@ META = {
     'evaluations': 'requests_judged',
     'rule': 'generated histories over all write routes + reads; one '
             'evaluation = one request judged on the generation columns of '
-            'the dumps around it and on the generation it returned; distinct '
-            '= (route, entity kind, what changed | returned-generation)'
+            'the dumps around it and on the generation it returned; after a '
+            'quarter of the steps every generation is read back through '
+            'every route reporting one (provider document, listing with '
+            'uuid / in_tree, inventories, traits, aggregates, allocations, '
+            'usages, consumer allocations) and compared with the stored '
+            'one; distinct = (route, entity kind, what changed | '
+            'returned-generation | read-back route)'
             ' plus a concurrent part: the C05-C07 scenario catalogue (and provider-tree races) run under the transaction-granularity scheduler, the same oracle evaluated on every committed state / committing step of every explored interleaving',
     'floors': {'concurrent_schedules': 100,
                'provider_changes_judged': 20, 'placements_judged': 10,
                'consumer_writes_judged': 5,
-               'returned_generations_judged': 10},
+               'returned_generations_judged': 10,
+               'generations_read_back': 500},
     'assumptions': ['SQLite backend', 'sequential histories + committed-state sequences of '
                     'transaction-level interleavings of request pairs/triples',
                     'successful writes that change nothing may or may not '
@@ -42,6 +48,80 @@ def conc_shard(spec, res):
     conc.run_invariants('C10', CONC, spec, res, per_step=monitors.c10_concurrent)
 
 
+def make_readback(svc, rng):
+    """after a sampled step: read every provider / consumer generation back
+    through every route that reports one and compare it with the stored
+    value ("the generation returned by a write equals the one subsequently
+    read" - read through the API, by any route)"""
+    from pv.client import Req
+
+    def readback(step, res):
+        if rng.random() > 0.25:
+            return
+        d = step.after
+        c = svc.client
+        seen = {}          # (provider, route) -> reported generation
+
+        def note(u, route, g):
+            seen[(u, route)] = g
+        r = c.send(Req('GET', '/resource_providers', '1.39'), record=False)
+        if r.status == 200:
+            for p in r.json['resource_providers']:
+                note(p['uuid'], 'GET rps', p['generation'])
+        rps = sorted(d.providers)
+        for u in rng.sample(rps, min(3, len(rps))):
+            for route, path, key in (
+                    ('GET rp', '/resource_providers/%s' % u, 'generation'),
+                    ('GET rps?uuid', '/resource_providers?uuid=%s' % u, None),
+                    ('GET rps?in_tree', '/resource_providers?in_tree=%s' % u,
+                     None),
+                    ('GET invs', '/resource_providers/%s/inventories' % u,
+                     'resource_provider_generation'),
+                    ('GET rp_traits', '/resource_providers/%s/traits' % u,
+                     'resource_provider_generation'),
+                    ('GET rp_aggs', '/resource_providers/%s/aggregates' % u,
+                     'resource_provider_generation'),
+                    ('GET rp_allocs', '/resource_providers/%s/allocations'
+                     % u, 'resource_provider_generation'),
+                    ('GET rp_usages', '/resource_providers/%s/usages' % u,
+                     'resource_provider_generation')):
+                r = c.send(Req('GET', path, '1.39'), record=False)
+                if r.status != 200:
+                    continue
+                if key is None:
+                    for p in r.json['resource_providers']:
+                        note(p['uuid'], route, p['generation'])
+                else:
+                    note(u, route, r.json[key])
+        for (u, route), g in sorted(seen.items()):
+            if u not in d.providers:
+                continue
+            res.count('generations_read_back')
+            res.seen('readback', route)
+            if g != d.providers[u]['generation']:
+                res.violation(
+                    'C10|read-generation-differs-from-stored|%s' % route,
+                    '%s reports generation %r for provider %s, stored is %d'
+                    % (route, g, u, d.providers[u]['generation']),
+                    step.witness())
+        cons = sorted(d.consumers)
+        for k in rng.sample(cons, min(2, len(cons))):
+            r = c.send(Req('GET', '/allocations/%s' % k, '1.39'),
+                       record=False)
+            if r.status == 200 and 'consumer_generation' in r.json:
+                res.count('generations_read_back')
+                res.seen('readback', 'GET alloc')
+                if r.json['consumer_generation'] != \
+                        d.consumers[k]['generation']:
+                    res.violation(
+                        'C10|read-generation-differs-from-stored|GET alloc',
+                        'GET /allocations/%s reports consumer_generation %r,'
+                        ' stored is %d' % (k, r.json['consumer_generation'],
+                                           d.consumers[k]['generation']),
+                        step.witness())
+    return readback
+
+
 def run_shard(spec, res):
     if spec.get('conc'):
         return conc_shard(spec, res)
@@ -53,7 +133,8 @@ def run_shard(spec, res):
             gen = HistoryGen(rng, Names(rng), WEIGHTS)
             gen.dup_list = True
             histrun.run_history(svc, gen, spec['steps'], [monitors.c10], res,
-                                hist_id=i)
+                                hist_id=i,
+                                after_step=make_readback(svc, rng))
             res.count('histories')
         res.sample({'history': i, 'last_requests': svc.client.history(6)})
     finally:
